@@ -198,3 +198,45 @@ Check eor_emission :
   | _ => n_beor n' = n_beor n /\ n_eor n' = n_eor n
   end.
 Print Assumptions eor_emission.
+
+(* (T6) PendingTx coalescing: per route, the last event queued between two flushes wins. *)
+Theorem pending_last_event_wins :
+  forall (E : Type) (p : ptx E) (k' : key) (e : E) (k : key),
+    pview E (ptx_reach E k' (fst k') e p) k = (if key_eqb k k' then Some (Some e) else pview E p k) /\
+    pview E (ptx_unreach E k' (fst k') p) k = (if key_eqb k k' then Some None else pview E p k) /\
+    (coherent E p -> coherent E (ptx_reach E k' (fst k') e p) /\ coherent E (ptx_unreach E k' (fst k') p)).
+Proof. exact C01_pending_last_event_wins. Qed.
+Check pending_last_event_wins :
+  forall (E : Type) (p : ptx E) (k' : key) (e : E) (k : key),
+    pview E (ptx_reach E k' (fst k') e p) k = (if key_eqb k k' then Some (Some e) else pview E p k) /\
+    pview E (ptx_unreach E k' (fst k') p) k = (if key_eqb k k' then Some None else pview E p k) /\
+    (coherent E p -> coherent E (ptx_reach E k' (fst k') e p) /\ coherent E (ptx_unreach E k' (fst k') p)).
+Print Assumptions pending_last_event_wins.
+
+(* (T7) Flush order: buffered initial dump, then withdrawals, then announcements. *)
+Theorem flush_order :
+  forall (E : Type) (n : nbr E) (k : key),
+    coherent E (n_ptx n) ->
+    kfind k (flush_mirror E n) =
+    match pview E (n_ptx n) k with
+    | Some (Some e) => Some e
+    | Some None => None
+    | None => match kfind k (rev (n_buf n)) with
+              | Some e => Some e
+              | None => kfind k (n_mirror n)
+              end
+    end.
+Proof. exact C01_flush_order. Qed.
+Check flush_order :
+  forall (E : Type) (n : nbr E) (k : key),
+    coherent E (n_ptx n) ->
+    kfind k (flush_mirror E n) =
+    match pview E (n_ptx n) k with
+    | Some (Some e) => Some e
+    | Some None => None
+    | None => match kfind k (rev (n_buf n)) with
+              | Some e => Some e
+              | None => kfind k (n_mirror n)
+              end
+    end.
+Print Assumptions flush_order.
